@@ -194,8 +194,10 @@ func (c *AbstractTokenizer) ReadNextToken() *Token {
 	line := c.Scanner.PeekLine()
 	column := c.Scanner.PeekColumn()
 	var token *Token = nil
+	verifIteration := 0
 
 	for true {
+		verifLoopHook(c.Scanner, &verifIteration)
 		// Read character
 		nextChar := c.Scanner.Peek()
 
